@@ -23,6 +23,14 @@ def _jobs(tier):
         jobs.append(dict(sub="split", count=3500 * mult, fix=dict(kern=kern, ellc=5)))
     for k in range(0, 17):
         jobs.append(dict(sub="ntt", count=KCOUNT[k] * mult, fix=dict(k=k), split=KSPLIT.get(k, 1)))
+    # stage trace (hook 2): exact per-stage model + per-stage maxima; value-guided search on the maxima
+    for k in range(1, 17):
+        jobs.append(dict(sub="ntt_trace", count=max(40, KCOUNT[k] // 10) * mult, fix=dict(k=k)))
+        if tier == "quick":
+            if k <= 10:
+                jobs.append(dict(sub="ntt_search", count=max(6, 400 >> k), fix=dict(k=k, iters=(20, 60))))
+        else:
+            jobs.append(dict(sub="ntt_search", count=max(8, 4000 >> k), fix=dict(k=k, iters=(100, 400)), split=(4 if k >= 10 else 1)))
     return jobs
 
 
@@ -37,16 +45,20 @@ PLAN = dict(
          "part) repeated ell times, enumerated exhaustively for ell in {0,1,2,9999,10000} plus generated ell. Oracle: sum x_i*y_i mod q_j in "
          "u128 on the raw words (c operands: sum x_lo*c0+x_hi*c1); ref = avx2 = oracle modulo each prime. NTT/iNTT: every n=2^k, the C03 "
          "lane families, final result against the order-agnostic oracle (a(r_j) through an independent NTT; intt checked through "
-         "a(r_j)=y_j). Non-trivial: products ell>=1000 and >=90% of the operand words have the top bit of their layout set; NTT: every "
-         "lane >=2^63 or an extremal family (all-ones, alternating, c*q-1, c*q, mixed extremal). Distinct = descriptor hash.",
+         "a(r_j)=y_j). Traced NTT/iNTT (sub ntt_trace): the same families, every stage checked against the exact stage model, largest lane per "
+         "stage measured; sub ntt_search: hill climbing on the lane vector (mutations: 2^64-1, c*q-1, random, 0, whole extremal element) with "
+         "fitness = largest lane after a generated target stage. Non-trivial: products ell>=1000 and >=90% of the operand words have the top bit of their layout set; NTT: every "
+         "lane >=2^63 or an extremal family (all-ones, alternating, c*q-1, c*q, mixed extremal); traced: some stage's largest lane >= 2^62. Distinct = descriptor hash.",
     assumptions=["declared ranges: a-words < 2^32, b-words any 64-bit value, c-words any 32-bit value, ell <= 10000, NTT/iNTT lanes any 64-bit value (input_bit_size = 64)",
-                 "no stage-trace hook: only final results are compared, so a wrap that is cancelled by a second wrap before the output, and how close "
-                 "intermediate NTT levels come to 2^64, are not observed; there is no value-guided search over intermediate maxima",
+                 "stage trace (guarded hook 2): every stage of every traced transform is compared modulo q with an exact model that follows the executed "
+                 "schedule and uses the low 32 bits of the library's own twiddle table; the hook only observes",
                  "default 30-bit prime set only"],
     quick=_jobs("quick"), thorough=_jobs("thorough"),
     required_classes=dict(all=["kern:" + k for k in KERNS] + ["impl:ref", "impl:avx2"] + ELLC + ["ell:3..9998"]
                           + ["operands:" + o for o in OPFAM] + ["h:%d" % h for h in range(1, 64)]
                           + ["split:low,low", "split:high,high", "split:low,high", "split:high,low"]
                           + ["k:%d" % k for k in range(0, 17)] + ["dir:q120_ntt_bb_avx2", "dir:q120_intt_bb_avx2"] + ["fam:" + f for f in FAMS]
-                          + ["products:ell>=1000,>=90%-topbit", "ntt:extremal-or-all-lanes>=2^63"]),
+                          + ["products:ell>=1000,>=90%-topbit", "ntt:extremal-or-all-lanes>=2^63"]
+                          + ["tk:%d" % k for k in range(1, 17)] + ["trace:q120_ntt_bb_avx2", "trace:q120_intt_bb_avx2", "trace:some-stage>=2^62",
+                             "search:q120_ntt_bb_avx2", "search:q120_intt_bb_avx2"]),
 )
